@@ -146,7 +146,40 @@ def _depth_shared_fragment(d1: int, d2: int, k: int, deep_first: bool, limit: in
     return result(ok, D1 != D2)
 
 
+from harness import docgen as DG  # noqa: E402
+from oracles.ref_exec import reference_depth  # noqa: E402
+
+
+def _depth_pieces(pa: int, pb: int, pc: int, pd: int, sv: bool, iv: bool, wrap: int, delta: int) -> bool:
+    """
+    pre: 0 <= pa < len(DG.PIECES) and pa < pb <= len(DG.PIECES) and pb <= pc <= len(DG.PIECES) and pc <= pd <= len(DG.PIECES) and 0 <= wrap <= 3 and -1 <= delta <= 1
+    pre: (pb == len(DG.PIECES) or pb < pc or pc == len(DG.PIECES)) and (pc == len(DG.PIECES) or pc < pd or pd == len(DG.PIECES))
+    pre: thorough() or pd == len(DG.PIECES)
+    pre: shard_of(pa * 5 + pb)
+    post: _
+    """
+    M = DG.mask_of([concrete_int(x, 0, len(DG.PIECES)) for x in (pa, pb, pc, pd)])
+    W, D = concrete_int(wrap, 0, 3), concrete_int(delta, -1, 1)
+    variables = {"s": True if sv else False, "i": True if iv else False}
+    with untraced():
+        doc = parse(DG.document(M, W))
+        op = doc.definitions[0]
+        depth = reference_depth(doc, op, variables)
+        limit = depth + D                       # just below, at, just above the true depth
+        errors = MaxDepthValidationRule(limit)(None, doc, variables)
+        ok = (len(errors) > 0) == (depth > limit) and len(errors) <= 1
+    return result(ok, depth > 1)
+
+
 CONDITIONS = [
+    Cond(
+        name="depth_pieces", fn=_depth_pieces, quick=150, thorough=900, per_path=60, shards_quick=16, shards_thorough=16,
+        bound="the executable documents of harness/docgen.py (ordered subsets of %d selection pieces: one field under several aliases with different sub-depths, a fragment spread several times at different levels and under @skip/@include, "
+              "inline fragments, both directives on one field; subsets of size <= 3, thorough <= 4) x variable values x 4 wrappings x limit = reference depth - 1 / +0 / +1" % len(DG.PIECES),
+        symbolic={"pa..pd": "choice: which pieces", "sv,iv": "data: variable values", "wrap": "choice", "delta": "choice: limit relative to the true depth"},
+        assumptions=["oracle: oracles/ref_exec.reference_depth (longest selected field path, merged same-key fields, fragments at any level)"],
+        witness={"pa": 3, "pb": 13, "pc": 13, "pd": 13, "sv": False, "iv": True, "wrap": 0, "delta": -1},
+    ),
     Cond(
         name="depth_shared_fragment", fn=_depth_shared_fragment, quick=100, thorough=200, per_path=60,
         bound="one named fragment (inner depth 0..2) spread at two different nesting levels (0..2 and 0..3) of the same operation, either one first, optionally a third time through another fragment; every limit -1..6",
